@@ -33,6 +33,7 @@ type thread struct {
 	started  bool
 	waitLock *Lock
 	waitExcl bool
+	waitCond func() bool // blocked until the condition holds (WaitUntil)
 	held     map[*Lock]bool // lock -> exclusive?
 	panicMsg string
 }
@@ -100,6 +101,9 @@ func (s *Scheduler) Go(name string, fn func()) {
 func (s *Scheduler) enabled(t *thread) bool {
 	if t.done {
 		return false
+	}
+	if t.waitCond != nil {
+		return t.waitCond()
 	}
 	if t.waitLock == nil {
 		return true
@@ -244,6 +248,20 @@ func (s *Scheduler) yield(op string) {
 	if s.aborting {
 		panic(abortExec{})
 	}
+}
+
+// WaitUntil blocks the running thread cooperatively until cond holds (a read on an empty in-memory
+// connection, a wait for another thread's step): the thread is not enabled while cond is false, so
+// waiting does not make the execution space cyclic; nobody enabled = deadlock. cond must only read
+// state that other scheduler threads change.
+func (s *Scheduler) WaitUntil(cond func() bool, op string) {
+	t := s.cur
+	t.waitCond = cond
+	s.yield(op)
+	if !cond() {
+		panic("sched: thread scheduled while its wait condition is false: " + op)
+	}
+	t.waitCond = nil
 }
 
 // Point is a plain scheduling point (before a seam call).
